@@ -471,6 +471,18 @@ func substValue(F *Factory, x Value, m map[*Term]*Term) Value {
 		}
 	case *IteV:
 		return &IteV{C: F.Subst(a.C, m), A: substValue(F, a.A, m), B: substValue(F, a.B, m)}
+	case *SliceV:
+		n := *a
+		if a.Off != nil {
+			n.Off = F.Subst(a.Off, m)
+		}
+		if a.Len != nil {
+			n.Len = F.Subst(a.Len, m)
+		}
+		if a.Cap != nil {
+			n.Cap = F.Subst(a.Cap, m)
+		}
+		return &n
 	}
 	return x
 }
